@@ -504,5 +504,49 @@ def check_srt(pid, tier, seed, scratch, replay):
     ))
 
 
+# ------------------------------------------------------------------------------------------------
+# C16: timestamp codec
+# ------------------------------------------------------------------------------------------------
+
+@register("C16")
+def check_timecodec(pid, tier, seed, scratch, replay):
+    import concurrent.futures as cf
+    thorough = tier == "thorough"
+    rep = Report(pid, tier, seed)
+    rep.rule = ("Public API only, batched: lists whose cue boundaries are the instants of a structured grid are written by each "
+                "writer (SRT, WebVTT, TTML, SSA, STL at 25 and 30 fps), the timing lines / attributes / TTI bytes are split into "
+                "raw fields by the harness, the bytes are re-read by the same format's reader and written a second time. Grid: "
+                "hours {0,1,9,10,23,24,99} x (m,s) cells x all 1000 ms (quick: a seed-chosen third of the cells plus 00:00 and "
+                "59:59; thorough: all 16 cells of {0,1,58,59}^2), every 10 ms boundary +-1 ns, characteristic ms +-1 ns, every frame "
+                "boundary at 25 and 30 fps +-1 ns, all 3600 (m,s) x 9 fractions (quick: every 7th), seeded random ns instants. TLC "
+                "validates each event against TimeCodec.tla (canonical grammar, latest representable instant, reader inverse, second "
+                "write, monotone along the sorted sequence). Non-trivial = distinct (format, instant).")
+    rep.assumptions = ["the statement's full sweep of all 8.64e7 ms instants per format is not reached (TLC validates ~10^4 events/s); the grid is "
+                       "complete in each field and in every carry pair (exhaustive=false)",
+                       "TimeCodec's own laws (canonical, not-after, fixed point, monotone) are model-checked on 252000 instants in every run"]
+    drive = vlib.build_harness(scratch)
+    fmts = ["srt", "vtt", "ttml", "ssa", "stl25", "stl30"]
+    parts = 3 if thorough else 1
+    jobs = [(f, p) for f in fmts for p in range(parts)]
+
+    def run_tc(job):
+        f, p = job
+        tr = scratch.path("trace.tc.%s.%d.ndjson" % (f, p))
+        args = ["timecodec", "-fmt", f, "-out", tr, "-seed", str(seed), "-part", str(p), "-parts", str(parts),
+                "-nrand", "5000" if thorough else "400"]
+        if thorough:
+            args.append("-thorough")
+        vlib.run_drive(drive, args)
+        return tr
+
+    with cf.ThreadPoolExecutor(max_workers=vlib.NCPU) as ex:
+        mc = ex.submit(lambda: require_ok(tlc(scratch, "MC_TimeCodec", "MC_TimeCodec.cfg", workers=4), "MC_TimeCodec"))
+        traces = [f.result() for f in [ex.submit(run_tc, j) for j in jobs]]
+        vals = validate(ex, scratch, traces, "TraceTime", "TraceTime.cfg", per_jvm=12000)
+        rep.add_mc("MC_TimeCodec.cfg", mc.result())
+    collect(rep, vals, pid, nontrivial=lambda ev: True, key=lambda ev: [ev["fmt"], ev["fps"], ev["t"]], is_first=lambda ev: True)
+    return rep.finish()
+
+
 def selftest(pid, tier, seed, scratch, replay):
     raise Infra("selftest not implemented yet")
